@@ -78,14 +78,20 @@ fn main() {
                     }
                 };
                 ctx.ops += 1;
+                let expected_cropped = match guarded(|| pools[0].1.install(|| run_body_pt(&c, &DstKind::CroppedTyped, 0x5A, None))) {
+                    Ok(e) => e,
+                    Err(_) => continue,
+                };
                 for (n, pool) in pools.iter() {
                     if huge && !matches!(*n, 1 | 2 | 3 | 32 | 64) {
                         continue;
                     }
                     for rep in 0..repeats {
-                        let kind = if (rep + n) % 2 == 0 { DstKind::Typed } else { DstKind::Tracked(Track::Off, false) };
+                        let kind = match (rep + n + dw as usize) % 4 { 0 => DstKind::Typed, 1 => DstKind::Tracked(Track::Off, false), 2 => DstKind::CroppedTyped, _ => DstKind::CroppedTracked(Track::Off, false) };
+                        let expected = if kind.is_cropped() { &expected_cropped } else { &expected };
                         // a different previous content each time: stale pixels become visible
-                        let sentinel = if rep % 2 == 0 { 0x5A } else { 0xA5 };
+                        // (cropped destinations: the parent's margins hold the sentinel, so it stays fixed)
+                        let sentinel = if rep % 2 == 0 || kind.is_cropped() { 0x5A } else { 0xA5 };
                         let r = guarded(|| pool.install(|| run_body_pt(&c, &kind, sentinel, None)));
                         ctx.ops += 1;
                         ctx.traces += 1;
@@ -95,7 +101,7 @@ fn main() {
                                 break;
                             }
                             Ok(out) => {
-                                if out != expected {
+                                if &out != expected {
                                     let i = out.iter().zip(expected.iter()).position(|(a, b)| a != b).unwrap_or(0);
                                     ctx.violation(format!("C08|real rayon|{:?}|{:?}|result differs from the single-threaded result", body, pt), || det(*n, json!({"first_differing_byte": i, "repeat": rep})));
                                     break;
